@@ -37,6 +37,9 @@ type c05Cfg struct {
 	ShutAt     int      `json:"shutdown_in_wait_after_attempt"` // 0 = no shutdown
 	ShutFrac   int      `json:"shutdown_at_percent_of_min_wait"`
 	Persistent bool     `json:"persistent_queue"`
+	// Shape: how the backend's permanent / throttling / transient errors are dressed: as they are, wrapped with %w, or
+	// joined with another (plain) error; their meaning is the same
+	Shape string `json:"error_shape"`
 }
 
 func c05Config(tp *simkit.Tape) c05Cfg {
@@ -64,6 +67,7 @@ func c05Config(tp *simkit.Tape) c05Cfg {
 		}
 		c.Script = append(c.Script, k)
 	}
+	c.Shape = []string{"plain", "wrapped", "joined"}[tp.Weighted(2, 1, 1)]
 	if tp.Chance(1, 4) {
 		c.ShutAt = tp.Range(1, n)
 		c.ShutFrac = []int{0, 50, 99}[tp.Draw(3)]
@@ -241,6 +245,14 @@ func runC05(r *simkit.Run) {
 			r.Count("fault.partial")
 		case kind == "hang":
 			r.Count("fault.hang")
+		}
+		if outcome != nil && kind != "partial" {
+			switch cfg.Shape {
+			case "wrapped":
+				outcome = fmt.Errorf("backend client: %w", outcome)
+			case "joined":
+				outcome = errors.Join(errors.New("sim backend: a second, unclassified complaint"), outcome)
+			}
 		}
 		id := parked[0]
 		if kind == "hang" {
